@@ -6,6 +6,7 @@ import os
 import numpy as np
 
 from . import annot, genatoms, geo
+from . import chem as T
 from .core import Err, lit, BUILD
 
 RUN_TARGETS = []
@@ -99,6 +100,41 @@ def min_margin(s3):
     return min(m)
 
 
+def nudged(s3, rng, k=4):
+    R = s3.residues
+    cands = []
+    for i, ri in enumerate(R):
+        for dn in T.BASE_DONORS.get(ri.one_letter_name, []):
+            da = ri.find_atom(dn)
+            if da is None:
+                continue
+            for j, rj in enumerate(R):
+                if i == j:
+                    continue
+                for an in T.BASE_ACCEPTORS.get(rj.one_letter_name, []) + T.RIBOSE_ACCEPTORS + T.PHOSPHATE_ACCEPTORS:
+                    aa = rj.find_atom(an)
+                    if aa is None:
+                        continue
+                    dist = float(np.linalg.norm(da.coordinates - aa.coordinates))
+                    if 3.7 < dist < 4.3:
+                        cands.append((i, dn, j, an, dist))
+    if not cands:
+        return None
+    rng.shuffle(cands)
+    moves, touched = {}, set()
+    for i, dn, j, an, dist in cands:
+        if (j, an) in touched or (i, dn) in touched or len(moves) >= k:
+            continue
+        touched.add((j, an))
+        touched.add((i, dn))
+        da, aa = R[i].find_atom(dn), R[j].find_atom(an)
+        u = (aa.coordinates - da.coordinates) / dist
+        target = 4.0 + rng.choice([-2e-4, 2e-4])
+        moves[(id(R[j]), an)] = da.coordinates + target * u
+    return geo.rebuild(s3, lambda res, a: ((geo.snap(float(moves[(id(res), a.name)][0])), geo.snap(float(moves[(id(res), a.name)][1])), geo.snap(float(moves[(id(res), a.name)][2])), a.occupancy)
+                                             if (id(res), a.name) in moves else (a.x, a.y, a.z, a.occupancy)))
+
+
 def to_table(s3):
     t = []
     serial = 1
@@ -119,7 +155,7 @@ def run(ctx):
     rng = ctx.rng
     d = os.path.join(BUILD, "c05")
     os.makedirs(d, exist_ok=True)
-    ctx.coverage["rule"] = ("corpus structures and jittered copies against: exact axis permutations / quarter turns (bit-exact), random proper rotations with translations up to "
+    ctx.coverage["rule"] = ("corpus structures, jittered copies, copies with incomplete bases and copies with a few contacts nudged to 4.0 +- 0.0002 A against: exact axis permutations / quarter turns (bit-exact), random proper rotations with translations up to "
                             "+-500 A, atoms shuffled inside residues, order-preserving renaming of chains and numbers, the same atoms written as PDB and as mmCIF. "
                             "Non-trivial = annotation non-empty and every decision of both copies at margin >= 1e-6; distinct by (structure, transformation).")
     files = ["1DFU_1_M-N.cif", "6INQ.cif", "4WTI_1_T-P.cif", "1HMH_1_E.cif", "1E7K_1_C.cif"] + ([] if ctx.quick else ["184D.cif", "1ehz-assembly-1.cif", "488d.pdb"])
@@ -135,6 +171,11 @@ def run(ctx):
             if spare and i_ % 3 == 0:
                 gone[id(r_)] = rng.choice(spare)
         bases.append(("thin-base", geo.rebuild(bases[0][1], keep_res=lambda i, r: True, keep_atom=lambda r, a: gone.get(id(r)) != a.name)))
+        # decisions two ten-thousandths of an Angstrom from the 4.0 A contact threshold (far outside the 1e-6 band): a few acceptor
+        # atoms are moved along the donor-acceptor line; any loss of precision that depends on where the molecule sits flips them
+        nb = nudged(bases[0][1], rng)
+        if nb is not None:
+            bases.append(("nudged", nb))
         for bkind, base in bases:
             ref = full(base)
             mref = min_margin(base)
